@@ -21,6 +21,14 @@ def check(pid, tier, args):
     out = os.path.join(vlib.scratch(), "c15")
     os.makedirs(out, exist_ok=True)
     vlib.run([drive, "imageconv", "-out", out, "-tier", tier, "-seed", str(vlib.seed())], timeout=3000)
+    # the structural part again with fewer processors than the requested parallelism
+    procs = ["2"] if tier == "quick" else ["2", "1", "5"]
+    with open(os.path.join(out, "c15.ndjson"), "a") as f:
+        for k, pr in enumerate(procs):
+            vlib.run([drive, "imageconv", "-out", out, "-tier", tier, "-seed", str(vlib.seed() + 1 + k), "-structonly", "-name", "p.ndjson"],
+                     timeout=3000, env=dict(vlib.goenv(), GOMAXPROCS=pr))
+            f.write(open(os.path.join(out, "p.ndjson")).read())
+    run.cov["gomaxprocs"] = ["default"] + procs
     results, rejects, lines = vlib.validate_trace("TraceImageConv", "TraceImageConv.cfg",
                                                   os.path.join(out, "c15.ndjson"), shards=8, heap="4g", timeout=3000)
     for res in results:
